@@ -82,3 +82,15 @@ Proof.
   - apply Forall_cons; [right; exists true, 32%N; split; [exact H32|]; split; [reflexivity|]; split; [exact I | reflexivity]|].
     apply Forall_cons; [right; exists true, 32%N; split; [exact H32|]; split; [reflexivity|]; split; [exact I | reflexivity]|]. apply Forall_nil.
 Qed.
+
+(* ------------------------------------------------------------------ the read of the returned value IS the compiler's *)
+(* what SubRoutine.il_read emits (gen/OpTablesGen.v, regenerated by symbolic execution on every run) elaborates to the term the model gives the
+   temporary of a call: the shared local ret_val read back at the width and signedness of the DECLARED return type *)
+From RZ.sem Require Import CBody.
+From RZ.gen Require Import OpTablesGen.
+From RZ.proofs Require Import OpTablesProofs.
+Theorem C08_return_value_read_at_declared_type : forall ret op t0 t1 ib0 ic0 ib1 ic1 il0 v0,
+  match subroutine_text op ret t0 t1 ib0 ic0 ib1 ic1 il0 v0 with Some s => elab [] noparam s | None => None end
+  = Some (PSignExt (vt_sg ret) (if (vt_w ret =? 0)%N then 32%N else vt_w ret) (PVarL "ret_val")).
+Proof. exact subroutine_read_text_ok. Qed.
+Print Assumptions C08_return_value_read_at_declared_type.
